@@ -56,9 +56,9 @@ def _sorted(xs):
 
 def _dt(dtype):
     """modules under test may have `float`/`int` rebound to shims; numpy needs the real types"""
-    if dtype is sx.float_shim:
+    if dtype is sx.float_shim or dtype is sx.FloatType:
         return builtins.float
-    if dtype is sx.int_shim:
+    if dtype is sx.int_shim or dtype is sx.IntType:
         return builtins.int
     return dtype
 
